@@ -1267,17 +1267,25 @@ func (o *baseObject) iterateStringKeys() iterNextFunc {
 	}).next
 }
 
+// objectSymbolIter iterates over a snapshot of the symbol keys taken when the iteration starts, like
+// objectPropIter does for string keys: [[OwnPropertyKeys]] is evaluated once by Object.assign, object spread/rest,
+// Object.defineProperties etc., so a symbol added while they run must not be visited, and a deleted one is skipped.
 type objectSymbolIter struct {
-	iter *orderedMapIter
+	o    *baseObject
+	keys []Value
+	idx  int
 }
 
 func (i *objectSymbolIter) next() (propIterItem, iterNextFunc) {
-	entry := i.iter.next()
-	if entry != nil {
-		return propIterItem{
-			name:  entry.key,
-			value: entry.value,
-		}, i.next
+	for i.idx < len(i.keys) {
+		key := i.keys[i.idx]
+		i.idx++
+		if val := i.o.symValues.get(key); val != nil {
+			return propIterItem{
+				name:  key,
+				value: val,
+			}, i.next
+		}
 	}
 	return propIterItem{}, nil
 }
@@ -1285,7 +1293,8 @@ func (i *objectSymbolIter) next() (propIterItem, iterNextFunc) {
 func (o *baseObject) iterateSymbols() iterNextFunc {
 	if o.symValues != nil {
 		return (&objectSymbolIter{
-			iter: o.symValues.newIter(),
+			o:    o,
+			keys: o.symbols(true, nil),
 		}).next
 	}
 	return func() (propIterItem, iterNextFunc) {
